@@ -25,7 +25,7 @@ EXPLANATION = (
     'largest table the men guard admits, aligned to slots and buckets, guarded by the size test, and placed at the top of the table.'
     ' (5) probeDTM answers only for positions without castling rights (the castle mask is tested in the probe or in the position import it requires).'
     ' Added later; (7) every adjacent-duplicate filter of the generator compares each element that has a predecessor with it, and the successor / predecessor lists are sorted before they are returned.'
-    " Added later; (8) in getUnMoves the un-capture moves the black king first and the white king last, as TBIndex::setSquare's special cases require (guard evaluated for every piece number). (7, extended) every neighbour-list loop has such a filter, or the list is cut at std::unique where it is sorted.")
+    " Added later; (8) in getUnMoves the un-capture moves the black king first and the white king last, as TBIndex::setSquare's special cases require (guard evaluated for every piece number). (7, extended) every neighbour-list loop has such a filter, or the list is cut at std::unique where it is sorted. (9) TBPosition::setPosition succeeds only after a sweep over every piece type that fails on a man that found no slot.")
 UNDECIDED = 'exactness of the distance-to-mate values themselves (retrograde analysis over millions of positions is value-level).'
 ASSUMPTIONS = ['8-bit two\'s complement storage of PositionValue::State (S8)',
                'TBPosition index arithmetic (20*64^(N-1) positions) is read from the constructor\'s constants']
@@ -42,6 +42,7 @@ def run(fb, rep, tier):
     c6_block_skip(fb, rep, 'C12.6')
     c7_dedup_filters(fb, rep, 'C12.7')
     c8_uncapture_order(fb, rep, 'C12.8')
+    c9_all_men_placed(fb, rep, 'C12.9')
 
 
 # ----------------------------------------------------------------------------- .1
@@ -1008,3 +1009,134 @@ def c8_uncapture_order(fb, rep, clause):
         ok_w = bool(wk) and all(sp.path_avoiding((c[0], c[1]), lambda x: any(x is k_[2] for k_ in other + bk), lambda x: False) is None for c in wk)
         rep.ob(clause, 'K10 call-order agreement', 'setPosition places the white king last (placing it mirrors the board)', ok_w,
                R.site(sp, (wk or calls)[0][2]), '%d white-king placement(s)' % len(wk), sp.sname)
+
+
+# ----------------------------------------------------------------------------- .9
+
+def c9_all_men_placed(fb, rep, clause):
+    """K2/K12 a probe answers for the position asked about.  TBPosition::setPosition copies the position's piece sets, takes
+    one man out of them for every slot of the table's material class, and may report success only if nothing is left: a
+    man that found no slot means the position is not of this class, and answering anyway returns the value of a smaller,
+    different position (the search then trusts it as exact).  So between the last extraction and every successful return
+    there is a sweep whose counter covers every piece type (first king .. last pawn, evaluated from the loop's own init /
+    bound / step) and which fails on a non-empty remainder - tested per type or accumulated with `|`."""
+    f = fb.find1('TBPosition::setPosition')
+    if rep.need(clause, f, 'TBPosition::setPosition') is None:
+        return
+    lo, hi = fb.const('Piece::WKING'), fb.const('Piece::BPAWN')
+    if rep.need(clause, None if None in (lo, hi) else 1, 'Piece::WKING / Piece::BPAWN') is None:
+        return
+    # the working copy: the array local whose elements are assigned from Position::pieceTypeBB
+    arr = set()
+    for b, i, e in f.events():
+        if e.get('k') == 'asg' and e.get('op') == '=' and isinstance(_strip12(e.get('l')), dict) and _strip12(e['l']).get('k') == 'idx' and \
+                any(isinstance(n, dict) and n.get('k') == 'call' and cname(n) == 'Position::pieceTypeBB' for n in walk(e.get('r'))):
+            base = _strip12(_strip12(e['l']).get('b'))
+            if isinstance(base, dict) and base.get('k') == 'var':
+                arr.add(base['id'])
+    if rep.need(clause, arr, 'the working copy of the piece sets in setPosition') is None:
+        return
+
+    def reads_arr(t):
+        return any(isinstance(n, dict) and n.get('k') == 'idx' and (_strip12(n.get('b')) or {}).get('id') in arr for n in walk(t))
+    takes = [(b, i, e) for b, i, e in f.events() if e.get('k') == 'call' and cname(e) == 'BitBoard::extractSquare' and reads_arr(e)]
+    rep.floor(clause, 'extractions from the working copy', len(takes), 1)
+    is_fail = lambda e: e is not None and e.get('k') == 'ret' and (_strip12(e.get('e')) or {}).get('cv') == 0
+    succ_rets = [(b, i, e) for b, i, e in f.events() if e.get('k') == 'ret' and not is_fail(e)]
+    rep.floor(clause, 'successful returns of setPosition', len(succ_rets), 1)
+    decls = {v['id']: v for _, _, e in f.events() if e.get('k') == 'decl' for v in e.get('vars', [])}
+    loops = f.natural_loops()
+    # accumulators: locals or-ed with elements of the copy
+    accs = set()
+    for b, i, e in f.events():
+        if e.get('k') == 'asg' and e.get('op') == '|=' and reads_arr(e.get('r')) and (_strip12(e.get('l')) or {}).get('k') == 'var':
+            accs.add(_strip12(e['l'])['id'])
+
+    def const_ev(t, env, depth=0):
+        t = _strip12(t)
+        if not isinstance(t, dict) or depth > 6:
+            return None
+        if 'cv' in t:
+            return t['cv']
+        if t.get('k') == 'var':
+            if t.get('id') in env:
+                return env[t['id']]
+            d = decls.get(t.get('id'))
+            return const_ev(d.get('init'), env, depth + 1) if d is not None and d.get('init') is not None else None
+        if t.get('k') == 'bin':
+            a, b_ = const_ev(t.get('l'), env, depth + 1), const_ev(t.get('r'), env, depth + 1)
+            if a is None or b_ is None:
+                return None
+            return {'+': a + b_, '-': a - b_, '<': a < b_, '<=': a <= b_, '>': a > b_, '>=': a >= b_, '!=': a != b_, '==': a == b_}.get(t.get('op'))
+        return None
+
+    def sweep_values(h):
+        """values the counter of loop h takes, or None"""
+        body = loops[h]
+        cond = (f.blocks[h].get('term') or {}).get('cond')
+        steps = {}
+        for b in body:
+            for e in f.blocks[b]['ev']:
+                if e.get('k') == 'incdec' and (_strip12(e.get('e')) or {}).get('k') == 'var':
+                    steps.setdefault(_strip12(e['e'])['id'], []).append(1 if e.get('op') == '++' else -1)
+        if len(steps) != 1 or cond is None:
+            return None, None
+        (vid, st), = steps.items()
+        if len(st) != 1 or vid not in decls or decls[vid].get('init') is None:
+            return None, None
+        x = const_ev(decls[vid]['init'], {})
+        if x is None:
+            return None, None
+        vals = []
+        for _ in range(64):
+            c = const_ev(cond, {vid: x})
+            if c is None:
+                return None, None
+            if not c:
+                break
+            vals.append(x)
+            x += st[0]
+        return vid, vals
+    sweeps = []
+    for h, body in sorted(loops.items()):
+        vid, vals = sweep_values(h)
+        if vals is None:
+            continue
+        # a failing test of the remainder indexed by the counter inside the loop (form a), or an accumulation that is tested
+        # after the loop with the failure as the only outcome (form b)
+        tested = False
+        for b in body:
+            t = f.blocks[b].get('term') or {}
+            c = t.get('cond')
+            if c is not None and any(isinstance(n, dict) and n.get('k') == 'idx' and (_strip12(n.get('b')) or {}).get('id') in arr and
+                                     (_strip12(n.get('i')) or {}).get('id') == vid for n in walk(c)):
+                c0, pol = strip_not(eff_cond(t))
+                tgt = f.blocks[b]['succ'][0] if pol else f.blocks[b]['succ'][1]
+                if any(is_fail(e) for e in f.blocks[tgt]['ev']):
+                    tested = True
+        acc_here = {(_strip12(e.get('l')) or {}).get('id') for b in body for e in f.blocks[b]['ev'] if e.get('k') == 'asg' and e.get('op') == '|=' and
+                    any(isinstance(n, dict) and n.get('k') == 'idx' and (_strip12(n.get('b')) or {}).get('id') in arr and (_strip12(n.get('i')) or {}).get('id') == vid for n in walk(e.get('r')))}
+        acc_tested = False
+        for b, blk in f.blocks.items():
+            t = blk.get('term') or {}
+            c = _strip12(t.get('cond')) if t.get('cond') is not None else None
+            if c is not None and b not in body and any(isinstance(n, dict) and n.get('k') == 'var' and n.get('id') in acc_here for n in walk(c)) and len(blk['succ']) == 2:
+                c0, pol = strip_not(eff_cond(t))
+                tgt = blk['succ'][0] if pol else blk['succ'][1]
+                if any(is_fail(e) for e in f.blocks[tgt]['ev']) and h in f.dominators().get(b, set()):
+                    acc_tested = True
+        if tested or acc_tested:
+            sweeps.append((h, vals))
+    covering = [h for h, vals in sweeps if set(range(lo, hi + 1)) <= set(vals)]
+    rep.ob(clause, 'K12 finite evaluation', 'setPosition: a sweep over every piece type (%d..%d) fails on a man that found no slot' % (lo, hi), bool(covering), f.where,
+           'remainder sweeps found: %s' % [(f.blocks[h]['term'].get('ln'), '%s..%s' % (v[0], v[-1]) if v else 'empty') for h, v in sweeps], f.sname)
+    if covering:
+        n = 0
+        for tb, ti, te in takes:
+            for rb, ri, re_ in succ_rets:
+                n += 1
+                w = None
+                for h in covering[:1]:
+                    w = _path_avoiding_block(f, (tb, ti), re_, h)
+                rep.ob(clause, 'K2 must-pass-through', 'setPosition: no successful return after an extraction without passing the remainder sweep', w is None,
+                       R.site(f, re_), '' if w is None else 'path that skips the sweep: ' + ' -> '.join('B%s' % x for x in w[-8:]), f.sname)
